@@ -14,8 +14,10 @@ RULE = ('tables from tables.rand_spec (every table replayed through a layout rec
         'histories via sort_order/transpose/copy) x {sort_order with EVERY permutation of each axis up to length 3 (quick) / 4 (thorough) '
         'and random permutations beyond, order given as list/tuple/array; orders that are not permutations (unknown id, repeated id, '
         'sub-list, empty); sort with natsort on natsort-tricky ids (a10/a2, mixed case, numeric strings, decimals, leading zeros) and '
-        'with other sorting functions; permutation then the original order; transpose, transpose twice; copy; update_ids with renamings '
-        'that lengthen/shorten/swap ids, partial with strict=False, the empty mapping, unknown keys, non-injective and strict-incomplete '
+        'with other sorting functions; sort on id sets that tie up to digit formatting (S1/S01, 1/1.0) after EVERY prior permutation of '
+        'the axis, judged against an independent natural-order reference; permutation then the original order; transpose, transpose twice; copy; update_ids with renamings '
+        'that lengthen/shorten/swap ids, partial with strict=False (incl. study-wide maps with unknown keys, at least as many entries as '
+        'ids and retained ids longer than every new name), the empty mapping, unknown keys, non-injective and strict-incomplete '
         'mappings (must raise), inplace and not; align_to x {sample, observation, both, detect, unknown axis} on pairs with equal id '
         'sets in different orders on both / one / no axis}; non-trivial = the operated axis has >= 2 ids and the request is not the '
         'identity; distinct by case hash')
@@ -36,6 +38,11 @@ SORTF = {
 TRICKY = [['a10', 'a2', 'a1', 'A3', 'b', 'B1'], ['10', '2', '1', '01', '100'], ['s10', 's9', 's1', 'S10', 's01'],
           ['x1.5', 'x1.10', 'x1.9', 'x2'], ['a', 'B', 'c', 'D'], ['1a', '1b', '10a', '2a', 'a1b2', 'a1b10'],
           ['é2', 'é10', 'e3'], ['', '0', 'a']]
+
+
+# id sets whose natural-order chunks tie (digit formatting only): ties are broken by the text
+TIES = [['S1', 'S01', 'S10', 'S2'], ['1.0', '1', '2'], ['a01b', 'a1b', 'a1b2'], ['007', '7', '07', '70'],
+        ['x1.50', 'x1.5', 'x01.5'], ['s2', 's02', 's002'], ['1', '01'], ['b1', 'B1', 'b01']]
 
 
 # ---------------------------------------------------------------- implementation
@@ -88,6 +95,8 @@ def _run_impl(c):
             return _ok(t.sort_order(_seq(c.get('otype', 'list'), c['order']), axis=c['axis']))
         if k == 'sort':
             return _ok(t.sort(sort_f=SORTF[c['sortf']], axis=c['axis']))
+        if k == 'sort_after':
+            return _ok(t.sort_order(list(c['order']), axis=c['axis']).sort(sort_f=SORTF[c['sortf']], axis=c['axis']))
         if k == 'perm_inverse':
             orig = [str(i) for i in t.ids(axis=c['axis'])]
             return _ok(t.sort_order(list(c['order']), axis=c['axis']).sort_order(orig, axis=c['axis']))
@@ -135,6 +144,10 @@ def encode(c):
         return [1, tb, [cd.id(str(i)) for i in SORTF[c['sortf']](list(ids))], AX[c['axis']]]
     if k == 'perm_inverse':
         return [7, tb, [cd.id(i) for i in c['order']], AX[c['axis']]]
+    if k == 'sort_after':
+        # the sorting function sees the ids in the order the prior history left them in
+        return [8, tb, [cd.id(i) for i in c['order']], AX[c['axis']],
+                [cd.id(str(i)) for i in SORTF[c['sortf']](list(c['order']))]]
     if k == 'align_to':
         return [2, tb, cd.table(T.spec_content(c['other'])), MODES[c['mode']]]
     if k == 'transpose':
@@ -241,8 +254,11 @@ def oracle(c, obs):
     key = 'oids' if ax == 'observation' else 'sids'
     okey = 'sids' if ax == 'observation' else 'oids'
     fails = []
-    if k in ('sort_order', 'sort', 'perm_inverse'):
-        if k == 'sort':
+    if k in ('sort_order', 'sort', 'perm_inverse', 'sort_after'):
+        if k == 'sort_after' and sorted(c['order']) != sorted(ids):
+            return [] if obs[0] == 'err' else ['sort_after: prior order is not a permutation but was accepted']
+        if k in ('sort', 'sort_after'):
+            # the natural order is a total order: it depends on the id SET only, not on the order a history left behind
             want = sorted(ids, key=_nat_key) if c['sortf'] == 'natsort' else [str(i) for i in SORTF[c['sortf']](list(ids))]
         elif k == 'perm_inverse':
             want = list(ids)
@@ -358,7 +374,7 @@ def _tricky_spec(rng):
 def _renaming(rng, ids, others):
     """-> (kind, id_map pairs, strict)"""
     kind = rng.choice(['lengthen', 'shorten', 'swap', 'partial', 'empty', 'unknown_keys', 'noninjective', 'collide_unmapped',
-                       'strict_missing', 'exotic', 'to_other_axis_name'])
+                       'strict_missing', 'exotic', 'to_other_axis_name', 'studywide', 'studywide', 'partial_short'])
     n = len(ids)
     if kind == 'lengthen':
         return kind, [[i, i + '_' + 'L' * rng.randint(5, 40)] for i in ids], True
@@ -373,6 +389,18 @@ def _renaming(rng, ids, others):
         return kind, [[i, 'new_' + i + 'x' * rng.randint(0, 12)] for i in sub], False
     if kind == 'empty':
         return kind, [], False
+    if kind == 'studywide':
+        # a map made for a whole study: at least as many entries as the axis has ids, some for ids that are not in
+        # the table, new names shorter than an id that is NOT mapped and has to be retained as it is
+        sub = [i for i in ids[:-1] if rng.random() < 0.6]
+        pairs = [[i, chr(65 + k)] for k, i in enumerate(sub)]
+        ghosts = rng.randint(max(0, n - len(sub)), n + 2)
+        pairs += [['ghost_%d' % g, chr(97 + g)] for g in range(ghosts)]
+        rng.shuffle(pairs)
+        return kind, pairs, False
+    if kind == 'partial_short':
+        sub = [i for i in ids if rng.random() < 0.5]
+        return kind, [[i, chr(65 + k)] for k, i in enumerate(sub)], False
     if kind == 'unknown_keys':
         return kind, [[i, i + '.r'] for i in ids] + [['ghost', 'g2'], ['zz', ids[0]]], rng.random() < 0.5
     if kind == 'noninjective':
@@ -456,6 +484,23 @@ def gen(rng, tier):
         spec = _tricky_spec(rng) if rng.random() < 0.7 else _spec(rng, max_r=5, max_c=5)
         yield {'kind': 'sort', 'spec': spec, 'axis': rng.choice(['observation', 'sample']),
                'sortf': rng.choice(['natsort', 'natsort', 'natsort', 'reverse', 'plain', 'bylen'])}
+    # 3b. natural order on ids that differ in digit formatting only, after EVERY prior permutation of the axis
+    for ties in (TIES if not quick else rng.sample(TIES, 5) + [TIES[0]]):
+        for axis in ('observation', 'sample'):
+            spec = _spec(rng, max_r=3, max_c=3, alphabet='short')
+            nt = len(ties)
+            if axis == 'observation':
+                k = len(spec['sids'])
+                spec.update(oids=list(ties), mat=[[float((3 * i + j) % 5) for j in range(k)] for i in range(nt)],
+                            omd=None if spec['omd'] is None else [{'n': x} for x in ties])
+            else:
+                r = len(spec['oids'])
+                spec.update(sids=list(ties), mat=[[float((3 * i + j) % 5) for j in range(nt)] for i in range(r)],
+                            smd=None if spec['smd'] is None else [{'n': x} for x in ties])
+            spec['layout'] = [rng.choice(T.INITIAL)] + [rng.choice(['colaccess', 'rowaccess', 'transpose2', 'copy'])]
+            yield {'kind': 'sort', 'spec': spec, 'axis': axis, 'sortf': 'natsort'}
+            for p in itertools.permutations(ties):
+                yield {'kind': 'sort_after', 'spec': spec, 'axis': axis, 'order': list(p), 'sortf': 'natsort'}
     # 4. transpose / copy
     for _ in range(90 * n):
         yield {'kind': rng.choice(['transpose', 'transpose2', 'copy']), 'spec': _spec(rng, max_r=5, max_c=5)}
@@ -478,7 +523,7 @@ def gen(rng, tier):
 def nontrivial(c):
     k = c['kind']
     s = c['spec']
-    if k in ('sort_order', 'perm_inverse'):
+    if k in ('sort_order', 'perm_inverse', 'sort_after'):
         ids = _ids(s, c['axis'])
         return len(ids) >= 2 and list(c['order']) != list(ids)
     if k == 'sort':
@@ -501,8 +546,11 @@ def classify(c):
         ids = _ids(c['spec'], c['axis'])
         tags.append('perm-len:%d' % len(ids) if sorted(c['order']) == sorted(ids) else 'not-a-permutation')
         tags.append('otype:' + c.get('otype', 'list'))
-    if c['kind'] == 'sort':
+    if c['kind'] in ('sort', 'sort_after'):
         tags.append('sortf:' + c['sortf'])
+        ids = _ids(c['spec'], c['axis'])
+        if len({str(_nat_key(i)[0]) for i in ids}) < len(ids):
+            tags.append('natural-order-tie')
     if c['kind'] == 'update_ids':
         tags.append('renaming:%s/strict=%s/inplace=%s' % (c.get('rkind', '?'), c['strict'], c['inplace']))
     if c['kind'] == 'align_to':
